@@ -75,6 +75,62 @@ def hasInexactPad (r : RustAgg) : Bool :=
     | .padding _, some (.opaqueA a s) => decide (s % a ≠ 0)
     | _, _ => false
 
+/-! ### domains of layers 3, 6, 7 -/
+
+/-- members of a record packed to `n` (`#pragma pack(n)`, or `__attribute__((packed))` for
+`n = 1`): every member sits at the least multiple of `min(align, n)` after its predecessor -/
+def packedFieldsFrom (n : Nat) : Nat → List CField → Bool
+  | _, [] => true
+  | cur, .data ty (some off) :: fs =>
+    match ty.layout with
+    | some l =>
+      decide (0 < l.align) && off % 8 == 0 && off / 8 == alignTo cur (min l.align n) &&
+      arrayHackInactive ty && !ty.containsAlign && packedFieldsFrom n (off / 8 + l.size) fs
+    | none => false
+  | _, _ => false
+
+/-- layer 3's domain: a struct the code recognises as packed, with alignment `n`
+(`n = 1`: `__attribute__((packed))`; `n > 1`: `#pragma pack(n)` detected through a member that
+is more aligned than the record).  For `n > 1` all member alignments are below 16 (otherwise
+`requires_explicit_align` asks for `repr(align)` as well) and one of them reaches `n`. -/
+def ClangPacked (c : CAgg) : Bool :=
+  !c.isUnion && !c.hasOwnVirtual && !c.hasVtablePtr && c.bases.isEmpty &&
+  !c.isOpaque && !c.forwardDecl && !c.zeroSized && !c.fields.isEmpty && c.isPacked &&
+  match c.layout with
+  | some l => decide (0 < l.align) && packedFieldsFrom l.align 0 c.fields &&
+              l.size == alignTo (plainEnd 0 c.fields) l.align &&
+              (l.align == 1 ||
+                (c.fields.all (fun f => match f.layout with | some fl => decide (fl.align < 16) | none => true) &&
+                 c.fields.any (fun f => match f.layout with | some fl => decide (fl.align ≥ l.align) | none => false)))
+  | none => false
+
+def unionFieldsOk : List CField → Bool
+  | [] => true
+  | .data ty off :: fs =>
+    (match ty.layout with | some l => decide (0 < l.align) | none => false) &&
+    (match off with | some o => o == 0 | none => true) && arrayHackInactive ty && unionFieldsOk fs
+  | _ :: _ => false
+
+def unionMaxSize : List CField → Nat
+  | [] => 0
+  | f :: fs => max (match f.layout with | some l => l.size | none => 0) (unionMaxSize fs)
+
+/-- layer 6's domain: a non-packed union of data members -/
+def ClangUnion (c : CAgg) : Bool :=
+  c.isUnion && !c.packedAttr && !c.hasOwnVirtual && !c.hasVtablePtr && c.bases.isEmpty &&
+  !c.isOpaque && !c.forwardDecl && !c.zeroSized && !c.fields.isEmpty &&
+  match c.layout with
+  | some l => decide (0 < l.align) && l.align != 3 && fieldAlignsLe l.align c.fields && unionFieldsOk c.fields &&
+              l.size == alignTo (unionMaxSize c.fields) l.align
+  | none => false
+
+/-- layer 7's domain: an opaque record whose layout is known -/
+def ClangOpaque (c : CAgg) : Bool :=
+  c.isOpaque && !c.forwardDecl &&
+  match c.layout with
+  | some l => decide (0 < l.align) && l.align != 3 && l.size % l.align == 0
+  | none => false
+
 /-- rustc rejects `packed` together with `align` (E0587) -/
 def packedAlignConflict (r : RustAgg) : Bool := r.packed.isSome && r.align.isSome
 
